@@ -11,11 +11,15 @@ def run(ctx):
     ctx.rule("R-CHUNK-SLICE", "value <-> byte conversion slices [k*i, k*i+k) little-endian", floor=2)
     ctx.rule("R-DM14-TOLD", "the proceed callback is told the decoded frame fields", floor=2)
     ctx.rule("R-IDLE-RESET", "every return to IDLE clears the transaction identity the admission guard tests", floor=3)
+    ctx.rule("R-FORWARD-NAMES", "facade methods pass each parameter to the same-named parameter of the component they forward to", floor=3)
+    D.forward_names(ctx)
     D.dm14_layout(ctx)
     D.dm15_layout(ctx)
     D.dm16(ctx)
     D.chunk_slice(ctx)
     D.told(ctx)
     D.idle_reset(ctx)
+    ctx.rule("R-QUEUE-TYPESTATE", "producer and consumer of the server's data queue agree on the write transaction", floor=3)
+    D.queue_typestate(ctx)
     ctx.assume("DM14 fields are passed in range: object count 0..255, pointer < 2^32, key/user level < 2^16, direct in {0,1}")
     return "DM14/DM15/DM16 layouts by sibling composition, size thresholds, chunk slicing, told arguments and idle reset"
